@@ -1,8 +1,10 @@
+from checks import finite
 from checks.generic import run_components
 
-ASSUME = ["A-INT: Python/numpy ints treated as mathematical integers", "A-FLOAT: floats treated as reals"]
+ASSUME = ["A-PERM: the order (rotate, then reflect) and direction of the facet permutations are those DOLFINx's codes denote "
+          "(external convention, pinned from current behaviour)", "A-FLOAT: point coordinates are reals"]
 
 
 def run(tier, seed):
-    return run_components("C03", tier, seed, ['e1', 'e2'], ASSUME,
-                          ["kernelvc (E2 walker; scoping mirrors C/formatter.py)", "UFL form data as oracle for extents"])
+    return run_components("C03", tier, seed, ["e1", finite.c03_group_lemmas, finite.c03_stacking, "e2"], ASSUME,
+                          ["kernelvc (E2)"])
